@@ -1190,6 +1190,24 @@ fn coded_life<R: Coded>(v: &[u64]) {
             let mut twin = R::default();
             compare(&mut r, &mut twin, 0);
         }
+        4 => {
+            // merge over two DIFFERENT sources: whatever either source stored is covered by the merged region's statistics
+            crate::section("VF:coded_life.merge");
+            let mut a = R::default();
+            let mut b = R::default();
+            let in_a: Vec<u64> = h.iter().copied().filter(|k| try_put(&mut a, *k).is_some()).collect();
+            let in_b: Vec<u64> = later.iter().copied().filter(|k| try_put(&mut b, *k).is_some()).collect();
+            for order in 0..2 {
+                let mut m = if order == 0 { R::merge_regions([&a, &b].into_iter()) } else { R::merge_regions([&b, &a].into_iter()) };
+                for k in in_a.iter().chain(in_b.iter()) {
+                    vassert!(try_put(&mut m, *k).is_some(), "VF:coded_life.merge.covered_item_refused");
+                }
+            }
+            let mut single = R::merge_regions(std::iter::once(&a));
+            for k in &in_a {
+                vassert!(try_put(&mut single, *k).is_some(), "VF:coded_life.merge.covered_item_refused");
+            }
+        }
         _ => {
             if R::HUFFMAN {
                 return; // HuffmanContainer::reserve_regions is todo!() in the crate
@@ -1222,10 +1240,10 @@ fn run_coded_life(v: &[u64]) {
     }
 }
 fn pre_coded_life(v: &[u64]) -> bool {
-    v[0] < 9 && v[1] < 4 && v[2..].iter().all(|x| *x < 6)
+    v[0] < 9 && v[1] < 5 && v[2..].iter().all(|x| *x < 6)
 }
 fn doms_coded_life() -> Vec<Vec<u64>> {
-    vec![range(9), range(4), range(6), vec![0, 5], vec![0, 3], range(6), vec![1, 4]]
+    vec![range(9), range(5), range(6), vec![0, 5], vec![0, 3], range(6), vec![1, 4]]
 }
 
 // FlatStack constructors that pre-size (`with_capacity`, `FromIterator`, which goes through it) must hand out a stack that
